@@ -183,7 +183,8 @@ class Judge:
         if 'err' in res:
             self.disc('C01', 'I-build', op['i'], 'chain construction failed', err=res['err'])
             return
-        self._register_chain(op, o, op['cid'], op['root'], op['render'], res['tasks'], op.get('pmode', True), ('chain', op['cid']))
+        reg = ('multi', 'reg:' + op['registry']) if op.get('registry') else ('chain', op['cid'])
+        self._register_chain(op, o, op['cid'], op['root'], op['render'], res['tasks'], op.get('pmode', True), reg)
 
     def j_mbuild(self, op, o):
         res = o['res']
@@ -663,6 +664,7 @@ class Eval:
         self.unknown = False
         self.skip_value = False
         self.top = None
+        self.taint_seen = False      # some location this request touches had a fault/failed run since it was last known complete
 
     def ident(self, name):
         it = self.chain['insts'][name]
@@ -687,6 +689,8 @@ class Eval:
         ob.ref_invalid = False
         persisted = it.kind not in PERSIST_NONE
         loc = j.loc(chain, it) if persisted else None
+        if loc is not None and (loc.tainted or loc.fail_partial):
+            self.taint_seen = True
         if persisted and not ob.forced:
             if loc.state == 'complete':
                 ob.mem = True
@@ -803,6 +807,9 @@ class Eval:
 
     def _failed(self, it, ob, loc, started, set_aside=True):
         ob.mem = False
+        if loc is not None:
+            loc.tainted = True     # a run of it failed: what is asked of later requests is C05's "always recovers"
+
         if loc is not None and started and loc.last_run:
             # a failed attempt has rewritten the log; the property speaks about records after a successful run only
             loc.last_run = dict(loc.last_run, valid=False)
@@ -887,7 +894,7 @@ class Eval:
                     loc.state = 'indoubt'
                     loc.stage_exact = False
             return
-        tainted = any(loc.tainted for (_, _, loc) in self.loads) or any(l.tainted for (_, _, l, _) in self.touched)
+        tainted = self.taint_seen or any(loc.tainted for (_, _, loc) in self.loads) or any(l.tainted for (_, _, l, _) in self.touched)
         # ---- invocations
         if got_inv != pred_inv:
             extra = _multiset_diff(got_inv, pred_inv)
